@@ -4,6 +4,7 @@ import CfbVerif.Phys.MiniInv
 import CfbVerif.Phys.NoPanic
 import CfbVerif.Phys.NoPanicApi
 import CfbVerif.Phys.Load
+import CfbVerif.Phys.NoHang
 /-!
 # C11 — mutating any file the library agreed to open never panics or hangs
 
@@ -41,8 +42,16 @@ Proved here, for *arbitrary* tables (no consistency assumed beyond the stated ra
   two-level model can be loaded from (`C11_loaded_state_in_range`); composed once more over the API level
   (`Phys/NoPanicApi.lean`): `C11_api_history_never_panics` — along every API history from every such
   image no call reaches a panic exit of the allocation level.  This is the composition over
-  the whole write path that the primitive lemmas above lacked — for the panic exits; the `hang`
-  exits (fuel) are not covered, nor is the directory level.
+  the whole write path that the primitive lemmas above lacked — for the panic exits.  The `hang`
+  exits (fuel) of the regular-chain level are covered by `Phys/NoHang.lean` (below); those of the
+  mini level and the composition over whole operations are not, nor is the directory level.
+* `C11_free_chain_terminates`, `C11_chain_write_terminates`, `C11_chain_read_terminates`,
+  `C11_chain_set_len_terminates` (`Phys/NoHang.lean`): the loops of alloc.rs/chain.rs that have no
+  bound in the Rust never use up the model's fuel — `free_chain` on *any* FAT (each round turns a
+  cell that is not FREE into FREE; a cycle is left through the "already free" refusal), the byte
+  loops on any tables (a byte or more per round), chain growth when the chain's last sector has END
+  in its cell and is not on the (duplicate-free, in-range) free list — the condition is kept by
+  every round, so a chain that was walked can be grown for ever.
 * `C11_mini_pop_safe_reachable`, `C11_reuse_safe_reachable`: both range conditions hold in *every*
   state the API model reaches from a fresh file (`miniRange_reachable`, `inv_reachable`: induction
   over all histories), so on well-formed files these two unchecked indexings can never fail.
@@ -268,6 +277,36 @@ theorem C11_api_history_never_panics (img : Raw.Img) (maxBuf : Nat) (ps : PState
 theorem C11_api_history_never_panics_fresh (v4 : Bool) (maxBuf : Nat) (ops : List CfbVerif.Dir.HOp) :
     NoPanicRun (PState.create v4 maxBuf) ops :=
   noPanicRun ops _ ⟨fun i hi => by simp [PState.create, Phys.create] at hi, fun i hi => by simp [PState.create, Phys.create] at hi⟩
+
+
+/-! ## termination of the regular-chain loops (`Phys/NoHang.lean`) -/
+
+/-- **`free_chain` terminates on every FAT**, cyclic or cross-linked chains included -/
+theorem C11_free_chain_terminates (p : P) (start : Nat) : NH (freeChainFrom p start) ∧ ∀ id, NH (freeChainAfter p id) :=
+  ⟨nh_freeChainFrom p start, nh_freeChainAfter p⟩
+
+/-- **`Chain::write` (under `write_all`) terminates** and leaves the chain growable -/
+theorem C11_chain_write_terminates (kind : Init) (p : P) (ids : List Nat) (off : Nat) (bs : Bytes) (t : TailOK p ids) :
+    NH (chainWrite kind (bs.length + 2) p ids off bs) ∧
+    ∀ p' ids', chainWrite kind (bs.length + 2) p ids off bs = .ok (p', ids') → TailOK p' ids' :=
+  tail_chainWrite kind _ p ids off bs t (by omega)
+
+theorem C11_chain_read_terminates (p : P) (ids : List Nat) (off n : Nat) : NH (chainRead (n + 2) p ids off n []) :=
+  nh_chainRead _ p ids off n [] (by omega)
+
+/-- **`Chain::set_len` terminates** (shrinking on any FAT; growing from a walked chain) -/
+theorem C11_chain_set_len_terminates (p : P) (ids : List Nat) (kind : Init) (newLen : Nat) (t : TailOK p ids) :
+    NH (chainSetLen p ids kind newLen) := nh_chainSetLen kind newLen t
+
+/-- the growth premise holds for the empty chain of a fresh file, and for the chain `open_chain`
+returns in a state that satisfies the allocator invariant -/
+example (v4 : Bool) : TailOK (Phys.create v4) [] :=
+  TailOK.nil (by simp [Phys.create]) (fun i hi => by simp [Phys.create] at hi)
+
+/-- the premise is not cosmetic: on a chain whose last cell points back into the chain (a cycle that
+`open_chain` was not asked about) the model's `extend_chain` runs out of fuel -/
+example : (match extendChain { (Phys.create false) with fat := #[FATSECT, 1] } 1 .zero with | .hang _ => true | _ => false) = true := by
+  decide
 
 /-- the premise is met by a damaged state — the MiniFAT chain cut under the in-memory MiniFAT (F20) —
 and the operation that used to trip the assertion is answered with an error -/
